@@ -281,10 +281,11 @@ func checkC03(p *core.Program, r *core.Report) {
 		"O3.5": "packer: ToBinary(value,size) → reducedness gadget on the same bits, every path → big-endian byte order",
 		"O3.6": "unpacker: big-endian byte order → FromBinary",
 		"O3.7": "reducedness gadget = comparison with the modulus (O6.3–O6.7)",
+		"O3.8": "imported verdict: the in-circuit Keccak's sponge layout (C04)",
 	} {
 		r.Rule(id, t)
 	}
-	r.Trusted = append(r.Trusted, "gnark struct-tag schema (name before the first comma, options after)", "gnark ToBinary/FromBinary/AssertIsEqual contracts", "the on-chain packing is the one given in the property statement", "in-circuit Keccak = Keccak-256 (C04, not claimed)")
+	r.Trusted = append(r.Trusted, "gnark struct-tag schema (name before the first comma, options after)", "gnark ToBinary/FromBinary/AssertIsEqual contracts", "the on-chain packing is the one given in the property statement", "the permutation inside the in-circuit Keccak beyond what C04's layout rules decide")
 	r.NotDecided = append(r.NotDecided, "that the in-circuit Keccak computes Keccak-256 (C04)", "soundness of gnark's to_binary/from_binary")
 	ctx := newCircuitCtx(p)
 	ins := checkPackingOf(p, r, ctx, "SetupInsertion", true, "")
@@ -317,4 +318,7 @@ func checkC03(p *core.Program, r *core.Report) {
 	r.Floor("public-input asserts", 2)
 	r.Floor("packed parts", 5)
 	r.Floor("comparator accept asserts", 1)
+	// "equals Keccak-256 of exactly that byte string" rests on the hash gadget absorbing every block of the packing: the
+	// sponge-layout obligations of C04 are part of this verdict
+	importVerdicts(p, r, "O3.8", "the hash gadget absorbs every block of the packed sequence with the standard padding and permutation", "C04")
 }
